@@ -1079,7 +1079,7 @@ impl World {
             let mut all = XHopOut { line: "rejected".to_string(), viols: vec![], tags: vec!["sub_grid"] };
             for kd in ["swap", "liq", "dec", "liqt", "liq1", "dec1", "repo"] {
                 for slot in 0..19 {
-                    for forge in 0..7 {
+                    for forge in 0..8 {
                         let sl = slot.to_string();
                         let fg = forge.to_string();
                         let o = self.x_sub(&[t[0], t[1], kd, &sl, t[4], &fg]);
@@ -1103,6 +1103,13 @@ impl World {
                     let (ls, us) = (base.array_start_for(p.tick_lower_index), base.array_start_for(p.tick_upper_index));
                     base.ensure_array(ls);
                     base.ensure_array(us);
+                    // the right-hand neighbours of both arrays exist too (forge variant 7 offers them instead)
+                    let span = 88 * base.wp().tick_spacing as i32;
+                    for st in [ls + span, us + span] {
+                        if st <= 443636 {
+                            base.ensure_array(st);
+                        }
+                    }
                     if kind == "repo" {
                         let (_, nhi) = repo_range(p.tick_lower_index, p.tick_upper_index, base.wp().tick_spacing);
                         let nus = base.array_start_for(nhi);
@@ -1348,7 +1355,23 @@ impl World {
         // copy names the stranger as holder and the stranger signs as position authority.
         let forge: u32 = t.get(5).and_then(|x| x.parse().ok()).unwrap_or(0);
         let mut subst = subst;
-        if forge == 6 {
+        if forge == 7 {
+            // variant 7 (C05 / C13): a tick-array slot of a liquidity instruction holds ANOTHER tick array of the SAME pool -
+            // the right-hand neighbour of the right one.  The bound's tick is not in it: TickNotFound, nothing written.
+            let span = 88 * base.wp().tick_spacing as i32;
+            let starts: Vec<i32> = base.arrays.keys().copied().collect();
+            let hit = starts.iter().find(|st| crate::fixture::tick_array_pda(&fx.pool, **st) == orig).copied();
+            let nb = match hit {
+                Some(st) if kind != "swap" && base.arrays.contains_key(&(st + span)) => crate::fixture::tick_array_pda(&fx.pool, st + span),
+                _ => return XHopOut { line: "skip NoForgery".to_string(), viols, tags: vec!["sub_no_forgery"] },
+            };
+            if metas.iter().any(|m| m.key == nb) && kind != "repo" {
+                // (lower and upper bound in adjacent arrays: the neighbour is the other slot's array - still the wrong one here)
+            }
+            m2[slot].key = nb;
+            subst = nb;
+            tags.push("sub_neighbour_array");
+        } else if forge == 6 {
             // variant 6: a byte-identical copy of one of the pool's VAULTS at another address, under the SAME token
             // program (anyone can create a token account of the right mint whose authority is the pool): only the
             // address distinguishes it from the pool's vault
@@ -1395,7 +1418,11 @@ impl World {
                 if forge > 0 && kind != "swap" && slot == ptoken_slot {
                     viols.push(format!("C04 the {} instruction accepted a stranger's signature with a forged position token account owned by another program (variant {})", kind, forge));
                 }
-                viols.push(format!("C15 the {} instruction accepted a {} account in slot {} ({} instead of {})", kind, if forge > 0 { "forged" } else { "look-alike" }, slot, subst, orig));
+                if forge == 7 {
+                    viols.push(format!("C05/C13 the {} instruction accepted, in slot {}, the NEIGHBOURING tick array of the same pool, which does not contain the position's bound", kind, slot));
+                } else {
+                    viols.push(format!("C15 the {} instruction accepted a {} account in slot {} ({} instead of {})", kind, if forge > 0 { "forged" } else { "look-alike" }, slot, subst, orig));
+                }
                 "ACCEPTED".to_string()
             }
             Err(e) => {
